@@ -1259,8 +1259,10 @@ def c08_item(res, item):
 def c08(res):
     rng = random.Random(res.seed)
     games = []
-    for _ in range(size(res, 1500, 10000)):
-        g = c08_gen(rng)
+    for k_ in range(size(res, 1500, 10000)):
+        # three games in four from the domain corners; one in four from the general strata (kappa floor reached under a large gamma,
+        # lopsided and big-sum lobbies, newcomers, equal ordinals, ...): totality is a claim about every valid game
+        g = c08_gen(rng) if k_ % 4 else gen_game(rng, stratum=("floor" if k_ % 16 == 0 else None))
         res.case(g)
         describe(res, g)
         c08_one(res, g, games)
@@ -1364,8 +1366,35 @@ def c15_item(res, item):
     corr_games(res, [g], "correspondence", "C15 option resolution")
 
 
+def c15_positional_constructor(res, rng):
+    """a model built by position, Model(mu, sigma, beta, kappa, gamma, tau, limit_sigma), is the model built with those keywords: its
+    model-level tau / limit_sigma are what per-call tau / limit_sigma mean"""
+    for k_ in range(size(res, 20, 100)):
+        kind = KINDS[k_ % 5]
+        M = MODEL_CLS[kind]
+        g = gen_game(rng, kind=kind, stratum=rng.choice(["typical", "floor", "wide"]), options=False)
+        t, b = rng.choice([0.0, g["beta"] / 3, g["beta"] * 2]), (k_ % 3 != 0)
+        dg = M().gamma
+        kw = dict(ranks=list(g["oc"][1])) if g["oc"][0] == "R" else (dict(scores=list(g["oc"][1])) if g["oc"][0] == "S" else {})
+        res.count("positionally_constructed_models")
+        try:
+            m_pos = M(25.0, 25.0 / 3.0, g["beta"], g["kappa"], dg, t, b)
+            m_kw = M(beta=g["beta"], kappa=g["kappa"], tau=t, limit_sigma=b)
+            m_call = M(beta=g["beta"], kappa=g["kappa"], tau=t * 3 + 1.0, limit_sigma=not b)
+            r_pos = [[(p.mu, p.sigma) for p in tm] for tm in m_pos.rate([[m_pos.rating(mu=m, sigma=s_) for (m, s_) in tm] for tm in g["teams"]], **kw)]
+            r_kw = [[(p.mu, p.sigma) for p in tm] for tm in m_kw.rate([[m_kw.rating(mu=m, sigma=s_) for (m, s_) in tm] for tm in g["teams"]], **kw)]
+            r_call = [[(p.mu, p.sigma) for p in tm] for tm in m_call.rate([[m_call.rating(mu=m, sigma=s_) for (m, s_) in tm] for tm in g["teams"]], tau=t, limit_sigma=b, **kw)]
+        except Exception as e:  # noqa: BLE001
+            res.fail("property", "C15: %s: a positionally constructed model raised %s" % (kind, type(e).__name__), dict(type="game", game=g)); continue
+        if not (r_pos == r_kw == r_call):
+            res.fail("property", "C15: %s(mu, sigma, beta, kappa, gamma, tau=%r, limit_sigma=%r) by position, by keyword and rate(..., tau, limit_sigma) disagree: %r / %r / %r" % (
+                kind, t, b, core.first_pair(r_pos, r_kw), core.first_pair(r_kw, r_call), None), dict(type="game", game=g))
+            return
+
+
 def c15(res):
     rng = random.Random(res.seed)
+    c15_positional_constructor(res, rng)
     games = []
     for _ in range(size(res, 60, 400)):
         g = gen_game(rng, stratum=rng.choice(["typical", "wide", "mismatch"]), options=True)
